@@ -3,6 +3,7 @@
 mod catalogue;
 mod c17;
 mod codec;
+mod compress;
 mod statics;
 mod sxv;
 mod dynval;
@@ -25,6 +26,7 @@ fn main() {
     match args[1].as_str() {
         "codec" => codec::cases(rest),
         "static" => statics::cases(rest),
+        "compress" => compress::cases(rest),
         "c17" => c17::run(rest),
         "graph" => graph::cases(rest),
         "ioops" => ioops::cases(rest),
